@@ -569,7 +569,14 @@ func runC12(t *testing.T, c explore.Case) explore.Result {
 	return runC12Store(t, c)
 }
 
-func init() { runners["C12"] = runC12 }
+func init() {
+	runners["C12"] = runC12
+	warmups["C12"] = func(t *testing.T) {
+		for _, l := range c12PutLetters(false) {
+			runC12Store(t, explore.Case{Prop: "C12", Unit: "mode=direct", H: []string{l}})
+		}
+	}
+}
 
 func permutations(n int) (out [][]int) {
 	var rec func(cur []int, used []bool)
